@@ -174,6 +174,13 @@ func spec_csCnt(s *ImmuStore) bool {
 //@   ensures committed_alh: durablePrecommittedTxID == s.committedTxID ==> r1 == s.committedAlh
 //@   ensures inmem_id: durablePrecommittedTxID != s.committedTxID && durablePrecommittedTxID == s.inmemPrecommittedTxID ==> r0 == s.inmemPrecommittedTxID
 //@   ensures inmem_alh: durablePrecommittedTxID != s.committedTxID && durablePrecommittedTxID == s.inmemPrecommittedTxID ==> r1 == s.inmemPrecommittedAlh
+// in between: the durably precommitted transaction is the (durable - committed)-th element of the ring of precommitted,
+// not yet committed transactions (1-based), never a later one (a replica acknowledges what it reports here)
+//@   ensures durable_elem: durablePrecommittedTxID != s.committedTxID && durablePrecommittedTxID != s.inmemPrecommittedTxID
+//@     && s.committedTxID < durablePrecommittedTxID && durablePrecommittedTxID - s.committedTxID <= 1<<20
+//@     && int(durablePrecommittedTxID - s.committedTxID) <= spec_pbCount(s.cLogBuf)
+//@     ==> r0 == s.cLogBuf.buf[(s.cLogBuf.rpos+int(durablePrecommittedTxID-s.committedTxID))%len(s.cLogBuf.buf)].txID
+//@      && r1 == s.cLogBuf.buf[(s.cLogBuf.rpos+int(durablePrecommittedTxID-s.committedTxID))%len(s.cLogBuf.buf)].alh
 //@   assigns nothing
 
 // ------------------------------------------------------------------------------------------------
